@@ -49,7 +49,8 @@ QueueCheck(e, A, X) ==
 
 StepBad(e, A, X) ==
   LET due == {f \in Slots : oA[f] = "pending" /\ ~oExp[f] /\ oDl[f] <= oNow}
-      ws == Wakes(e)
+      \* wakers taken under the lock and invoked after it (`taken`) count like in-lock wake-ups
+      ws == Wakes(e) \o (IF "taken" \in DOMAIN e THEN e.taken ELSE <<>>)
       reg == Registered(A, X)
       c01 == \/ (e.op # "poll_done" /\ "res" \in DOMAIN e /\ e.res = "panic")
              \/ ~QueueCheck(e, A, X)
@@ -86,7 +87,8 @@ ObsStep(e) ==
               [] e.op = "drop" -> [oLastW EXCEPT ![e.f] = "-"]
               [] OTHER -> oLastW
       W0 == IF e.op \in {"poll", "drop"} THEN [oWoken EXCEPT ![e.f] = FALSE] ELSE oWoken
-      ws == Wakes(e)
+      \* wakers taken under the lock and invoked after it (`taken`) count like in-lock wake-ups
+      ws == Wakes(e) \o (IF "taken" \in DOMAIN e THEN e.taken ELSE <<>>)
   IN
   /\ oA' = A /\ oExp' = X /\ oLastW' = LW
   /\ oNow' = IF e.op = "set_clock" THEN e.t ELSE oNow
